@@ -127,7 +127,7 @@ class SurfaceFactory:
         elif index == 1:
             z = 0  # first surface, always at zero
         else:
-            z = float(self._surface_group.positions[index-1]) + \
+            z = float(np.ravel(self._surface_group.positions[index-1])[0]) + \
                 self.last_thickness
 
         return CoordinateSystem(x=dx, y=dy, z=z, rx=rx, ry=ry)
